@@ -63,6 +63,14 @@ impl EnvSpec {
                 neighbour.push(json!([rng.below(80), rng.below(6_000), rng.range(1, 8)]));
             }
         }
+        // a quarter of the bounded pools are ample, with a neighbour that squeezes them for a moment:
+        // operators spill once or twice at arbitrary points and then carry on
+        let limit = if kind != "unbounded" && rng.chance(1, 4) {
+            neighbour = (0..rng.range(1, 3)).map(|_| json!([rng.below(90), rng.below(600), rng.range(1, 6)])).collect();
+            rng.range(8_000, 80_000)
+        } else {
+            limit
+        };
         json!({
             "batch_size": *rng.pick(&[1u64, 2, 3, 8, 64, 8192]),
             "pool": {"kind": kind, "limit": limit, "neighbour": neighbour},
